@@ -25,6 +25,9 @@ type template struct {
 	method string
 	states int
 	msg    int // 0: no message literal; 1: APPEND m <msg>; 2: APPEND m UTF8 (~<msg>)
+	// the backend does not behave like the plain recording stub (it refuses, or it does not read
+	// the whole literal): framing oracles only, no "answered OK and delivered intact" expectation
+	oddBackend bool
 }
 
 const (
@@ -48,6 +51,11 @@ func templates() []template {
 		{name: "APPEND", pre: "APPEND ", slots: []slot{str("mailbox", "Append", " ")}, method: "Append", states: inAuth, msg: 1},
 		{name: "APPEND-flags-date", pre: "APPEND abox (\\Seen) \"17-Jul-1996 02:44:25 -0700\" ", method: "Append", states: inAuth, msg: 1},
 		{name: "APPEND-utf8", pre: "APPEND abox UTF8 (", method: "Append", states: inAuth, msg: 2},
+		// backend answers to APPEND (the mailbox name selects the answer, see Sess.Append): refused
+		// with none of / 3 octets of the message read, accepted with 2 octets read
+		{name: "APPEND-refused-unread", pre: "APPEND " + MboxRefuseUnread + " ", method: "Append", states: inAuth, msg: 1, oddBackend: true},
+		{name: "APPEND-refused-partly-read", pre: "APPEND " + MboxRefusePartly + " ", method: "Append", states: inAuth, msg: 1, oddBackend: true},
+		{name: "APPEND-accepted-partly-read", pre: "APPEND " + MboxLazy + " (\\Seen) ", method: "Append", states: inAuth, msg: 1, oddBackend: true},
 		{name: "SEARCH-BODY", pre: "SEARCH BODY ", slots: []slot{str("search", "Search", "\r\n")}, method: "Search", states: inSel},
 		{name: "FETCH-HEADER.FIELDS", pre: "FETCH 1 BODY[HEADER.FIELDS (", slots: []slot{str("hdr", "Fetch", ")]\r\n")}, method: "Fetch", states: inSel},
 		{name: "STORE-FLAGS", pre: "STORE 1 FLAGS (", slots: []slot{{role: "flag", method: "Store", atomOK: true, after: ")\r\n"}}, method: "Store", states: inSel},
@@ -347,7 +355,7 @@ func build(t *template, ci int, choice []ArgVar, msg *ArgVar, junkTail bool) Var
 	}
 	flushText()
 	c.Name = t.name + "(" + strings.Join(names, ",") + ")"
-	if benign && !v.Stops {
+	if benign && !v.Stops && !t.oddBackend {
 		c.Benign = &Expect{Method: t.method, Values: values, States: t.states, NeedLiteralPlus: needLP}
 	}
 	v.Cmd = c
@@ -434,6 +442,9 @@ func Variants(ci int) []Variant {
 			for _, a := range argVars(true, true) {
 				a := a
 				v := mk(base, &a, false)
+				if t.oddBackend && (a.String() == "{4097+}cmdlike" || a.String() == "{4096}cmdlike") {
+					v.Core = true
+				}
 				if t.name == "APPEND" {
 					switch a.String() {
 					case "{4097+}cmdlike", "{1}plain", "{1+}plain/junk", "{4096+}cmdlike":
@@ -469,7 +480,10 @@ func Variants(ci int) []Variant {
 	auth("empty-line", "AUTHENTICATE PLAIN\r\n", "\r\n", false, "", false)
 	// IDLE
 	for k := 0; k <= 2; k++ {
-		for _, term := range []struct{ name, line, class string; junk, ok bool }{
+		for _, term := range []struct {
+			name, line, class string
+			junk, ok          bool
+		}{
 			{"DONE", "DONE\r\n", "", false, true},
 			{"command-like-garbage", jk + " NOOP\r\n", "garbage-instead-of-DONE", true, false},
 			{"over-long-garbage", strings.Repeat("D", 4096) + jk + " NOOP\r\n", "over-long-continuation-line", true, false},
@@ -515,8 +529,8 @@ func rejectedLineVariants(ci int) []Variant {
 	tag := fmt.Sprintf("s%d", ci)
 	jk := fmt.Sprintf("Jk%d", ci)
 	prefixes := []struct{ name, text string }{
-		{"UNKNOWN", "XFROB "},                 // rejected at the command name
-		{"NOOP", "NOOP "},                     // rejected where CRLF was expected
+		{"UNKNOWN", "XFROB "}, // rejected at the command name
+		{"NOOP", "NOOP "},     // rejected where CRLF was expected
 		{"STORE-syntax-error", "STORE 1 FLAGS (\\Seen "}, // rejected inside the flag list
 	}
 	// text between the rejected point and the literal header that ends the line
@@ -562,7 +576,7 @@ func rejectedLineVariants(ci int) []Variant {
 		if p.name != "STORE-syntax-error" {
 			// two literals in one rejected line, each header preceded by an earlier brace
 			c := Cmd{Tag: tag, Kind: KPlain, Class: "nonsync-literal-in-rejected-command-line",
-				Name: fmt.Sprintf("%s(rejected-line,two-literals-with-earlier-braces)", p.name),
+				Name:   fmt.Sprintf("%s(rejected-line,two-literals-with-earlier-braces)", p.name),
 				Chunks: []Chunk{{Text: tag + " " + p.text + "\"{\" "}, {Lit: lit()}, {Text: " a{b {3} "}, {Lit: lit()}, {Text: "\r\n"}}}
 			out = append(out, Variant{Cmd: c})
 		}
